@@ -1,6 +1,7 @@
 package wasp
 
 import (
+	"github.com/vx-labs/mqtt-protocol/packet"
 	rt "github.com/vx-labs/wasp/v4/zzsymxrt"
 )
 
@@ -106,4 +107,46 @@ func symxSafely(f func()) (panicked bool) {
 	}()
 	f()
 	return false
+}
+
+// symxC06C: on the wire. A writer with a tiny identifier pool and more QoS>0 deliveries than
+// identifiers: the identifiers of unacknowledged PUBLISH packets are pairwise distinct and lie
+// in the configured range; an exhausted pool never shows up as an identifier on the wire.
+func symxC06C() {
+	max := int32(rt.Param("max", 2))
+	sends := rt.Param("sends", 4)
+	b := symxNewBroker(1, 1)
+	b.writer.midPool = newMIDPool(0, max)
+	p := b.start(nil)
+	s, c := b.session("s", "c", "m", 30)
+	outstanding := map[int32]bool{}
+	seen := 0
+	for k := 0; k < sends; k++ {
+		symxTick()
+		if rt.Bool("ack_one") && len(outstanding) > 0 {
+			// acknowledge the smallest outstanding identifier
+			var pick int32 = -1
+			for id := range outstanding {
+				if pick < 0 || id < pick {
+					pick = id
+				}
+			}
+			p.proc.Process(b.ctx, s, c, &packet.PubAck{Header: &packet.Header{}, MessageId: pick})
+			delete(outstanding, pick)
+			rt.Quiesce()
+		}
+		b.writer.Send(b.ctx, []string{"s"}, []int32{1}, &packet.Publish{Header: &packet.Header{}, Topic: []byte("m/t"), Payload: []byte{byte('a' + k)}})
+		rt.Quiesce()
+		symxPoolRetryWait(6)
+		pubs := symxPublishes(c.written())
+		for _, pk := range pubs[seen:] {
+			rt.Assert(pk.MessageId >= 1 && pk.MessageId <= max, "C06.wire.identifier_in_configured_range")
+			rt.Assert(!outstanding[pk.MessageId], "C06.wire.identifier_not_already_in_flight")
+			outstanding[pk.MessageId] = true
+		}
+		seen = len(pubs)
+	}
+	rt.Cover(len(outstanding) == int(max), "C06.wire.pool_exhausted")
+	b.cancel()
+	rt.Quiesce()
 }
